@@ -399,13 +399,21 @@ func parseVerbs(format string) []byte {
 			continue
 		}
 		i++
+		sharp := false
 		for i < len(format) && strings.IndexByte("+-# 0123456789.[]*", format[i]) >= 0 {
+			if format[i] == '#' {
+				sharp = true
+			}
 			i++
 		}
 		if i >= len(format) {
 			break
 		}
 		if format[i] == '%' {
+			continue
+		}
+		if format[i] == 'v' && sharp {
+			verbs = append(verbs, 'V') // %#v: Go-syntax representation — GoString() if there is one, never String()/Error()
 			continue
 		}
 		verbs = append(verbs, format[i])
@@ -589,12 +597,8 @@ func (p *Prog) printMethods(t types.Type, verb byte, depth int, seen map[types.T
 				try("String")
 			}
 		}
-		if verb == 0 || verb == 'v' {
-			// %#v would call GoString; only with the sharp flag, which the
-			// verb parser maps to 0 (unknown) when it cannot tell.
-			if verb == 0 {
-				try("GoString")
-			}
+		if verb == 0 || verb == 'V' {
+			try("GoString") // %#v ('V'), or a verb that could not be determined
 		}
 	}
 	if found {
